@@ -187,7 +187,27 @@ def check_case(case, rec):
 
             # (only with references by name: a reference handed over as an object stays with that object, by the caller's choice)
             replaced = case["replace"] % n if case.get("replace") is not None and build == "api" else None
-            for i in case["order"]:
+            if build in ("api_after_run", "dict_after_run"):
+                # a finished program edited into this model: every command first stands alone (no references), the
+                # program is run, then the commands with references are deleted and put back with them -- through
+                # add_command, or straight into the documented `commands` dictionary
+                from mpilot.arguments import Argument
+
+                for i in case["order"]:
+                    prog.add_command(node_cls, name(i), {})
+                prog.run()
+                for r in range(case.get("pick", 0) % 2):
+                    prog.run()
+                vlog.reset(cap=40 * (n + 10) + 2000)
+                for i in case["order"]:
+                    if not adj[i]:
+                        continue
+                    del prog.commands[name(i)]
+                    if build == "api_after_run":
+                        prog.add_command(node_cls, name(i), arguments(i))
+                    else:
+                        prog.commands[name(i)] = node_cls(name(i), [Argument(k, v) for k, v in arguments(i).items()], program=prog)
+            for i in ([] if build in ("api_after_run", "dict_after_run") else case["order"]):
                 # a model edited the documented way: one command first added without its references, later deleted
                 # and added again under the same name with them
                 prog.add_command(node_cls, name(i), {} if i == replaced else arguments(i))
@@ -286,7 +306,9 @@ def check_case(case, rec):
             for ev, nm in vlog.LOG:
                 if ev == "enter":
                     counts[nm] = counts.get(nm, 0) + 1
-            if sorted(counts) != sorted(name(i) for i in range(n)) or any(v != 1 for v in counts.values()):
+            # (in a finished program that was edited, only the commands put back are new and have yet to execute)
+            due = [i for i in range(n) if adj[i]] if build in ("api_after_run", "dict_after_run") else range(n)
+            if sorted(counts) != sorted(name(i) for i in due) or any(v != 1 for v in counts.values()):
                 fails.append(Failure("acyclic_control:not_all_executed_once|%s" % cls, "%r\n%s" % (counts, text)))
         rec.label("acyclic_control")
     return fails
@@ -332,6 +354,8 @@ def small_graphs(ctx):
                             yield {"n": n, "adj": adj, "kinds": kinds, "order": list(order), "lib": "testlib", "pick": bits + len(kinds[0]), "build": build}
                             yield {"n": n, "adj": adj, "kinds": kinds, "order": list(order), "lib": "testlib", "pick": bits + len(kinds[0]), "build": build,
                                    "replace": bits % n}
+                        for build in ("api_after_run", "dict_after_run"):
+                            yield {"n": n, "adj": adj, "kinds": kinds, "order": list(order), "lib": "testlib", "pick": bits + len(kinds[0]), "build": build}
             # every reference mentioned twice by its command (once as written, once more in its list parameter)
             if bits % 2 == 0 or not ctx.quick:
                 for kinds in kind_assignments(adj, full=False)[:2]:
@@ -388,7 +412,7 @@ def larger_graphs(draw):
     lib = draw(st.sampled_from(["testlib", "testlib", "testlib", "builtin"]))
     return {"n": n, "adj": adj, "kinds": kinds, "order": order, "lib": lib, "fuzzy": draw(st.booleans()), "pick": draw(st.integers(0, 9)),
             "voff": draw(st.integers(0, 6)), "poff": draw(st.integers(0, 5)), "sat": draw(st.sampled_from(["mixed", "true", "false", "zero"])),
-            "printvars": draw(st.sampled_from([None, None, None, 0, 1, 5, 31, 10])), "build": draw(st.sampled_from(["source", "source", "api", "api_objects"])),
+            "printvars": draw(st.sampled_from([None, None, None, 0, 1, 5, 31, 10])), "build": draw(st.sampled_from(["source", "source", "api", "api_objects", "api_after_run", "dict_after_run"])),
             "replace": draw(st.sampled_from([None, None, 0, 1, 2, 3, 4]))}
 
 
